@@ -70,9 +70,15 @@ def replay_helpers(ctx):
 
 
 def run(ctx):
+    run_restore_rules(ctx)
+
+
+def run_restore_rules(ctx, only_adt=None, floor=4):
+    """the restore rules; C01 (no false negative across failed operations) and C14 (exact multiset across failed inserts)
+    re-use them for their filters, because a lost or duplicated fingerprint after a failed call is a violation of those too"""
     prog = ctx.prog
-    ms = fallible_mutators(ctx)
-    ctx.floor("R12-restore", len(ms), 4, "fallible Filter::insert/union implementations")
+    ms = [m for m in fallible_mutators(ctx) if only_adt is None or m.impl_self == only_adt]
+    ctx.floor("R12-restore", len(ms), floor, "fallible Filter::insert/union implementations")
     helpers = replay_helpers(ctx)
     for k, h in sorted(helpers.items()):
         f = prog.fn(k)
